@@ -1037,6 +1037,7 @@ structure GroupHint where
   rm : List (Int × String) := []       -- order of the ids in `_remove_matched_tasks`
   sp : List (Int × String) := []       -- order of the respawns (`_set_prereqs_tdef` calls)
   fn : List Nat := []                  -- the flow numbers used (read only by the most-recent-flow fallback)
+  ch : List ((Int × String) × List (Int × String)) := []   -- per removed id: the order of its graph children (a set)
   deriving Repr, Inhabited
 
 /-- `l` reordered: first its members named by the hint, in hint order, then the rest in their own order -/
@@ -1062,6 +1063,7 @@ inductive Op where
   /-- `cylc remove ids [--flow=n ...]`; `order`: the iteration order of the matched id *set* (taken from the
   implementation; any list is admissible, ids it does not name keep their own order) -/
   | rm (ids : List (Int × String)) (flows : List Nat) (order : List (Int × String))
+       (chs : List ((Int × String) × List (Int × String)) := [])
   deriving Repr
 
 def clearOp (s : State) : State :=
@@ -1316,9 +1318,10 @@ def eraseHistory (g : Graph) (s : State) (k : Int × String) (flows : List Nat) 
 
 /-- the part of `_remove_matched_tasks` after the pool removal of one id: downstream proxies stand down, then
 the id is removed from the flows in the DB tables -/
-def removeDownstream (g : Graph) (s : State) (ids : List (Int × String)) (k : Int × String) (flows : List Nat) :
-    State × Bool :=
-  let (s, any) := (allChildren g k).foldl (standDown g ids k flows) (s, false)
+def removeDownstream (g : Graph) (s : State) (ids : List (Int × String)) (k : Int × String) (flows : List Nat)
+    (ch : List (Int × String) := []) : State × Bool :=
+  -- (the graph children are a Python set: `ch` = the order in which the implementation walked them)
+  let (s, any) := (orderBy ch (allChildren g k)).foldl (standDown g ids k flows) (s, false)
   let (s, dbRemoved) := eraseHistory g s k flows
   (s, any || !dbRemoved.isEmpty)
 
@@ -1335,35 +1338,38 @@ def removePooled (g : Graph) (st : State) (x : Proxy) (fr : List Nat) : State :=
 
 /-- `_remove_matched_tasks`, outer loop: one matched id -/
 def removeOne (g : Graph) (ids : List (Int × String)) (flows : List Nat)
+    (chs : List ((Int × String) × List (Int × String)))
     (acc : State × List (Int × String) × Bool) (k : Int × String) : State × List (Int × String) × Bool :=
   let (st, toKill, any) := acc
+  let ch := ((chs.find? (·.1 == k)).map (·.2)).getD []
   match st.get? k.1 k.2 with
   | some x =>
     let fr := x.matchFlows flows
     if fr.isEmpty then
       -- not removable from the pool; code as found: nothing at all happens for this id
       if g.rmAlwaysDb then
-        let (st, ch) := removeDownstream g st ids k flows
+        let (st, ch) := removeDownstream g st ids k flows ch
         (st, toKill, any || ch)
       else acc
     else
     let st := removePooled g st x fr
     let toKill := if fr == x.flows then toKill ++ [k] else toKill
-    let (st, _) := removeDownstream g st ids k flows
+    let (st, _) := removeDownstream g st ids k flows ch
     (st, toKill, true)
   | none =>
-    let (st, ch) := removeDownstream g st ids k flows
+    let (st, ch) := removeDownstream g st ids k flows ch
     (st, toKill, any || ch)
 
-def removeCore (g : Graph) (s : State) (ids : List (Int × String)) (flows : List Nat) :
-    State × List (Int × String) × Bool :=
-  ids.foldl (removeOne g ids flows) (s, [], false)
+def removeCore (g : Graph) (s : State) (ids : List (Int × String)) (flows : List Nat)
+    (chs : List ((Int × String) × List (Int × String)) := []) : State × List (Int × String) × Bool :=
+  ids.foldl (removeOne g ids flows chs) (s, [], false)
 
 /-- `_remove_matched_tasks(ids, flow_nums)` -/
-def removeMatched (g : Graph) (s : State) (ids : List (Int × String)) (flows : List Nat) : State :=
+def removeMatched (g : Graph) (s : State) (ids : List (Int × String)) (flows : List Nat)
+    (chs : List ((Int × String) × List (Int × String)) := []) : State :=
   -- (repaired code) pending DB operations are written first: `remove_task_from_flows` reads the committed rows
   let s := if g.rmCommits then dbFlush s else s
-  let (s, toKill, any) := removeCore g s ids flows
+  let (s, toKill, any) := removeCore g s ids flows chs
   let s := if toKill.isEmpty then s else killTasks g s toKill
   if any then
     let (s, changed) := computeRunaheadB g s
@@ -1462,7 +1468,7 @@ def forceTriggerGroup (g : Graph) (s : State) (group : List (Int × String)) (fl
   let ids := orderBy h.rm (toRemove ++ inactive)
   let s :=
     if flow == .none then s else
-    let s := removeMatched g s ids flowNums
+    let s := removeMatched g s ids flowNums h.ch
     let s := { s with preStart := ids.foldl (fun acc k =>
         if k.1 < g.start && !acc.contains (k.2, k.1) then acc ++ [(k.2, k.1)] else acc) s.preStart }
     dbFlush (releaseTasks s ids)
@@ -1509,11 +1515,11 @@ def forceTrigger (g : Graph) (s : State) (ids : List (Int × String)) (flow : Fl
 reported as unmatched), the `--flow` numbers through `FlowMgr.cli_to_flow_nums` (an unknown number is recorded as
 a new flow -- only when something matched), then `_remove_matched_tasks` -/
 def removeTasks (g : Graph) (s : State) (ids : List (Int × String)) (flows : List Nat)
-    (order : List (Int × String)) : State :=
+    (order : List (Int × String)) (chs : List ((Int × String) × List (Int × String)) := []) : State :=
   let ids := ids.foldl (fun acc k => if acc.contains k || (instOf g k).isNone then acc else acc ++ [k]) []
   if ids.isEmpty then s else
   let s := flows.foldl State.useFlow s
-  removeMatched g s (orderBy order ids) (sortNat flows)
+  removeMatched g s (orderBy order ids) (sortNat flows) chs
 
 def step (g : Graph) (s : State) (op : Op) : State :=
   let s := clearOp s
@@ -1533,7 +1539,7 @@ def step (g : Graph) (s : State) (op : Op) : State :=
   | .resume => { s with paused := false }
   | .restart => restart g s
   | .trigger ids flow wait hint => forceTrigger g s ids flow wait hint
-  | .rm ids flows order => removeTasks g s ids flows order
+  | .rm ids flows order chs => removeTasks g s ids flows order chs
 
 def init (g : Graph) : State :=
   dbFlush (loadFromPoint g)
